@@ -39,6 +39,9 @@ func (t *Trace) Emit(e Ev) {
 	}
 	t.w.Write(b)
 	t.w.WriteByte('\n')
+	// one write per line: if the code under test takes the process down (fatal runtime error),
+	// everything recorded so far is on disk and the driver can see where it happened
+	t.w.Flush()
 	t.n++
 }
 
